@@ -48,6 +48,16 @@ static int key_entry_cmp(const void *arg, const void *obj)
 	return 0;
 }
 
+/*
+ * tommy_hashlin_init() cannot report that the allocation of the first bucket
+ * vector failed. A table in that condition rejects every operation that
+ * needs the hash table instead of dereferencing the missing vector.
+ */
+static bool spki_table_is_usable(const struct spki_table *spki_table)
+{
+	return spki_table->hashtable.bucket[0] != NULL;
+}
+
 /* Copying the content, target struct must already be allocated */
 static void key_entry_to_spki_record(struct key_entry *key_e, struct spki_record *spki_r)
 {
@@ -115,6 +125,9 @@ int spki_table_add_entry(struct spki_table *spki_table, struct spki_record *spki
 	uint32_t hash;
 	struct key_entry *entry;
 
+	if (!spki_table_is_usable(spki_table))
+		return SPKI_ERROR;
+
 	entry = lrtr_malloc(sizeof(*entry));
 	if (!entry)
 		return SPKI_ERROR;
@@ -146,6 +159,9 @@ int spki_table_get_all(struct spki_table *spki_table, uint32_t asn, uint8_t *ski
 
 	*result = NULL;
 	*result_size = 0;
+
+	if (!spki_table_is_usable(spki_table))
+		return SPKI_ERROR;
 
 	pthread_rwlock_rdlock(&spki_table->lock);
 
@@ -225,6 +241,9 @@ int spki_table_remove_entry(struct spki_table *spki_table, struct spki_record *s
 	struct key_entry entry;
 	struct key_entry *rmv_elem;
 	int rtval = SPKI_ERROR;
+
+	if (!spki_table_is_usable(spki_table))
+		return SPKI_ERROR;
 
 	spki_record_to_key_entry(spki_record, &entry);
 	hash = tommy_inthash_u32(spki_record->asn);
